@@ -1061,16 +1061,24 @@ func genOwnCtx(count int, rng *rand.Rand) []*ownCtxCase {
 	return out
 }
 
-func runOwnCtx(c *ownCtxCase) (fails []string, info string) {
+func runOwnCtx(c *ownCtxCase) (fails []string, info string, trace []string) {
 	n := len(c.Deps)
-	sched := (scheduler.Config{Concurrency: c.N, ContinueOnError: true}).New()
+	rec := &scheduler.VerifRecorder{}
+	defer func() { trace = rec.Snapshot() }()
+	sched := (scheduler.Config{Concurrency: c.N, ContinueOnError: true, Verif: rec}).New()
 	bg := context.Background()
 	runs := make([]int32, n)
 	hs := make([]*scheduler.ScheduledJob, n)
 	release := make(chan struct{})
 	for j := 0; j < n; j++ {
 		j := j
-		ctx, cancel := context.WithCancel(bg)
+		ctx, cancelCtx := context.WithCancel(bg)
+		cancel := func() {
+			// the job's own context: marked in the trace with the job's id
+			rec.Add(fmt.Sprintf("X cancel-begin j%d", j))
+			cancelCtx()
+			rec.Add(fmt.Sprintf("X cancel-end j%d", j))
+		}
 		if c.Kind[j] == "pre" {
 			cancel()
 		}
@@ -1107,7 +1115,7 @@ func runOwnCtx(c *ownCtxCase) (fails []string, info string) {
 	case <-time.After(10 * time.Second):
 		atomic.AddInt32(&hangs, 1)
 		close(release)
-		return []string{fmt.Sprintf("per-job contexts: Wait did not return within 10s (kinds %v deps %v N=%d)", c.Kind, c.Deps, c.N)}, "timeout"
+		return []string{fmt.Sprintf("per-job contexts: Wait did not return within 10s (kinds %v deps %v N=%d)", c.Kind, c.Deps, c.N)}, "timeout", nil
 	}
 	close(release)
 	// expected statuses by evaluation in enqueue order
@@ -1165,7 +1173,7 @@ func runOwnCtx(c *ownCtxCase) (fails []string, info string) {
 	if len(fails) > 0 {
 		fails = append(fails, fmt.Sprintf("(kinds %v deps %v N=%d)", c.Kind, c.Deps, c.N))
 	}
-	return fails, fmt.Sprintf("ownctx N=%d jobs=%d pre=%d", c.N, n, wantCtx)
+	return fails, fmt.Sprintf("ownctx N=%d jobs=%d pre=%d", c.N, n, wantCtx), nil
 }
 
 // ---------------------------------------------------------------- very large fan-in (C01)
@@ -1464,7 +1472,7 @@ func main() {
 				stats["skipped-after-hangs"]++
 				continue
 			}
-			fails, info := runOwnCtx(oc)
+			fails, info, otrace := runOwnCtx(oc)
 			if info == "timeout" {
 				ownHangs++
 				fmt.Fprintf(w, "cap %d %s capseed=%d capcount=%d\n", oc.Idx, info, *seed, *capacity)
@@ -1485,6 +1493,26 @@ func main() {
 				baseG = countSchedGoroutines()
 			}
 			stats["ownctx"]++
+			if len(otrace) > 0 {
+				// the same execution as a trace for the replay through the model (per-job contexts:
+				// Cfg.ctxOf); the oracle verdicts of this case are the O lines above
+				fmt.Fprintf(w, "scn %d N=%d coe=1 emit=0 late=0 extcancel=-1 perturb=0 seed=0 spin=0 jobs=%d block=-1\n", oc.Idx, oc.N, len(oc.Deps))
+				for j, d := range oc.Deps {
+					k := "ok"
+					if oc.Kind[j] == "fail" || oc.Kind[j] == "cancelfail" {
+						k = "fail"
+					}
+					fmt.Fprintf(w, "job %d %s", j, k)
+					for _, x := range d {
+						fmt.Fprintf(w, " %d", x)
+					}
+					fmt.Fprintln(w)
+				}
+				for _, l := range otrace {
+					fmt.Fprintln(w, "T", l)
+				}
+				fmt.Fprintln(w, "end")
+			}
 		}
 		if *capacity > 0 {
 			type se struct {
